@@ -61,35 +61,35 @@ type c45Pend struct {
 }
 
 type c45Pkt struct {
-	from, to *c45Peer
-	kind     string // msg | random | whoareyou | handshake
-	data     []byte
-	nonce    Nonce
-	msg      Packet
-	gen      int
-	ch       *Whoareyou // whoareyou: the challenge; handshake: the challenge answered
-	rec      []byte     // handshake: record included (nil if none)
-	seq      uint64     // handshake: sender's record seq at encode time
+	from, to  *c45Peer
+	kind      string // msg | random | whoareyou | handshake
+	data      []byte
+	nonce     Nonce
+	msg       Packet
+	gen       int
+	ch        *Whoareyou // whoareyou: the challenge; handshake: the challenge answered
+	rec       []byte     // handshake: record included (nil if none)
+	seq       uint64     // handshake: sender's record seq at encode time
 	delivered int
-	forged   bool // produced in reaction to a tampered packet: must never succeed
+	forged    bool // produced in reaction to a tampered packet: must never succeed
 }
 
 type c45Net struct {
-	rt      *rapid.T
-	clock   mclock.Simulated
-	prng    *rand.Rand
-	peers   []*c45Peer // A, B, C
-	sess    map[*c45Peer]map[*c45Peer]int       // holder -> peer -> generation (0 = none)
-	pend    map[*c45Peer]map[*c45Peer]*c45Pend  // challenger -> challenged
-	keys    map[int]*c45GenKeys                 // observer's session keys by generation
-	gen     int
-	pool    []*c45Pkt
-	log     []string
+	rt    *rapid.T
+	clock mclock.Simulated
+	prng  *rand.Rand
+	peers []*c45Peer                         // A, B, C
+	sess  map[*c45Peer]map[*c45Peer]int      // holder -> peer -> generation (0 = none)
+	pend  map[*c45Peer]map[*c45Peer]*c45Pend // challenger -> challenged
+	keys  map[int]*c45GenKeys                // observer's session keys by generation
+	gen   int
+	pool  []*c45Pkt
+	log   []string
 	// flags for the non-trivial rule
 	handshakes, resets, afterReset, hsAfterReset, msgsDecoded, faults int
-	resetSeen                                           bool
-	kinds                                               map[byte]bool
-	classes                                             map[string]int
+	resetSeen                                                         bool
+	kinds                                                             map[byte]bool
+	classes                                                           map[string]int
 }
 
 func (n *c45Net) class(label string) { n.classes[label]++ }
@@ -760,7 +760,7 @@ func (n *c45Net) misdeliver(rt *rapid.T, p *c45Pkt) {
 
 var c45Actions = []string{"roundtrip", "roundtrip", "roundtrip", "roundtrip", "roundtrip", "send", "send", "send",
 	"deliver", "deliver", "deliver", "deliver", "deliver", "deliver", "replay", "reset", "reset", "clock", "bump",
-	"tamper", "tamper", "tamper", "misdeliver", "misdeliver", "impersonate"}
+	"tamper", "tamper", "tamper", "misdeliver", "misdeliver", "impersonate", "replay-handshake"}
 
 func (n *c45Net) attackChallenge(rt *rapid.T) bool {
 	if rapid.Bool().Draw(rt, "forgeIdentity") {
@@ -783,6 +783,15 @@ func c45ExchangeProp(st *vs.S, honestOnly bool) func(rt *rapid.T) {
 		_ = trace
 		for i := 0; i < steps; i++ {
 			act := rapid.SampledFrom(c45Actions).Draw(rt, "action")
+			if act == "replay-handshake" {
+				hasHS := false
+				for _, p := range n.pool {
+					hasHS = hasHS || (p.kind == "handshake" && p.delivered > 0 && !p.forged)
+				}
+				if !hasHS {
+					act = "roundtrip"
+				}
+			}
 			if honestOnly && (act == "tamper" || act == "misdeliver" || act == "impersonate") {
 				act = "deliver"
 			}
@@ -862,6 +871,32 @@ func c45ExchangeProp(st *vs.S, honestOnly bool) func(rt *rapid.T) {
 				n.logf("%s record seq now %d", x.name, x.ln.Node().Seq())
 			case "tamper":
 				n.tamper(rt, n.pickAuthenticated(rt, "tamperWhich"), "")
+			case "replay-handshake":
+				// an old, once accepted handshake packet is replayed while its receiver waits for
+				// the answer to a new challenge of the same peer
+				var old []*c45Pkt
+				for _, p := range n.pool {
+					if p.kind == "handshake" && p.delivered > 0 && !p.forged {
+						old = append(old, p)
+					}
+				}
+				h := rapid.SampledFrom(old).Draw(rt, "oldHandshake")
+				x, y := h.from, h.to
+				if n.pendValid(y, x) == nil {
+					if n.sess[x][y] != 0 {
+						x.c.sc.sessions = lru.NewBasicLRU[sessionID, *session](1024)
+						for _, z := range n.peers {
+							n.sess[x][z] = 0
+						}
+						n.resets++
+						n.resetSeen = n.handshakes > 0
+						n.logf("reset sessions of %s", x.name)
+					}
+					n.send(x, y, c45GenMsg(rt, n))
+					n.deliver(n.pool[len(n.pool)-1]) // y challenges x
+				}
+				n.logf("replay old handshake #%s into the new challenge", c45PktID(n, h))
+				n.deliver(h)
 			case "impersonate":
 				if !n.attackChallenge(rt) {
 					// no challenge is pending: create one (request without session, challenge not yet answered)
@@ -1001,48 +1036,67 @@ func FuzzVerifC45Exchange(f *testing.F) {
 	f.Fuzz(rapid.MakeFuzz(c45ExchangeProp(nil, false)))
 }
 
-// c45FuzzNode builds node B holding a session and a pending challenge for A,
-// plus one valid message packet A->B; everything is deterministic (fixed keys,
-// nonces and masking IVs) because fuzz workers are separate processes.
-func c45FuzzNode() (cb *Codec, idA, idB enode.ID, s *session, valid []byte, closefn func()) {
+// c45FuzzEnv holds what is built once per (worker) process: two local nodes with
+// fixed keys and one valid message packet A->B. Everything in the packet is
+// deterministic (fixed keys, nonces and masking IVs) because fuzz workers are
+// separate processes that must agree on the one valid packet.
+type c45FuzzEnvT struct {
+	keyB        *ecdsa.PrivateKey
+	lnA, lnB    *enode.LocalNode
+	nodeA       *enode.Node
+	valid       []byte
+	read, write []byte
+}
+
+const c45FuzzAddrA, c45FuzzAddrB = "10.0.0.1:30303", "10.0.0.2:30303"
+
+func c45FuzzHooks(c *Codec, fill byte) {
+	c.sc.nonceGen = func(counter uint32) (Nonce, error) {
+		var n Nonce
+		binary.BigEndian.PutUint32(n[:4], counter)
+		copy(n[4:], bytes.Repeat([]byte{fill}, 8))
+		return n, nil
+	}
+	c.sc.maskingIVGen = func(b []byte) error { copy(b, bytes.Repeat([]byte{fill + 8}, len(b))); return nil }
+}
+
+var c45FuzzEnv = sync.OnceValue(func() *c45FuzzEnvT {
 	keyA, _ := crypto.ToECDSA(bytes.Repeat([]byte{0x31}, 32))
 	keyB, _ := crypto.ToECDSA(bytes.Repeat([]byte{0x32}, 32))
-	clock := new(mclock.Simulated)
-	lnA, lnB := enode.NewLocalNode(c45DB(), keyA), enode.NewLocalNode(c45DB(), keyB)
-	ca := NewCodec(lnA, keyA, clock, nil)
-	cb = NewCodec(lnB, keyB, clock, nil)
-	for i, c := range []*Codec{ca, cb} {
-		fill := byte(0x40 + i)
-		c.sc.nonceGen = func(counter uint32) (Nonce, error) {
-			var n Nonce
-			binary.BigEndian.PutUint32(n[:4], counter)
-			copy(n[4:], bytes.Repeat([]byte{fill}, 8))
-			return n, nil
-		}
-		c.sc.maskingIVGen = func(b []byte) error { copy(b, bytes.Repeat([]byte{fill + 8}, len(b))); return nil }
-	}
-	const addrA, addrB = "10.0.0.1:30303", "10.0.0.2:30303"
-	s = &session{readKey: bytes.Repeat([]byte{1}, 16), writeKey: bytes.Repeat([]byte{2}, 16)}
-	cb.sc.storeNewSession(lnA.ID(), addrA, s, lnA.Node())
-	ca.sc.storeNewSession(lnB.ID(), addrB, s.keysFlipped(), lnB.Node())
-	enc, _, err := ca.Encode(lnB.ID(), addrB, &Ping{ReqID: []byte{1, 2}, ENRSeq: 9}, nil)
+	e := &c45FuzzEnvT{keyB: keyB, lnA: enode.NewLocalNode(c45DB(), keyA), lnB: enode.NewLocalNode(c45DB(), keyB),
+		read: bytes.Repeat([]byte{1}, 16), write: bytes.Repeat([]byte{2}, 16)}
+	e.nodeA = e.lnA.Node()
+	ca := NewCodec(e.lnA, keyA, new(mclock.Simulated), nil)
+	c45FuzzHooks(ca, 0x40)
+	ca.sc.storeNewSession(e.lnB.ID(), c45FuzzAddrB, &session{readKey: e.write, writeKey: e.read}, e.lnB.Node())
+	enc, _, err := ca.Encode(e.lnB.ID(), c45FuzzAddrB, &Ping{ReqID: []byte{1, 2}, ENRSeq: 9}, nil)
 	if err != nil {
 		panic(err)
 	}
-	valid = bytes.Clone(enc)
-	ch := &Whoareyou{Node: lnA.Node(), RecordSeq: lnA.Node().Seq(), IDNonce: [16]byte{7}}
-	if _, _, err := cb.Encode(lnA.ID(), addrA, ch, nil); err != nil {
+	e.valid = bytes.Clone(enc)
+	return e
+})
+
+// c45FuzzNode builds a fresh codec for B holding a session and a pending
+// challenge for A.
+func c45FuzzNode() (cb *Codec, idA, idB enode.ID, s *session, valid []byte) {
+	e := c45FuzzEnv()
+	cb = NewCodec(e.lnB, e.keyB, new(mclock.Simulated), nil)
+	c45FuzzHooks(cb, 0x41)
+	s = &session{readKey: e.read, writeKey: e.write}
+	cb.sc.storeNewSession(e.lnA.ID(), c45FuzzAddrA, s, e.nodeA)
+	ch := &Whoareyou{Node: e.nodeA, RecordSeq: e.nodeA.Seq(), IDNonce: [16]byte{7}}
+	if _, _, err := cb.Encode(e.lnA.ID(), c45FuzzAddrA, ch, nil); err != nil {
 		panic(err)
 	}
-	return cb, lnA.ID(), lnB.ID(), s, valid, func() {}
+	return cb, e.lnA.ID(), e.lnB.ID(), s, e.valid
 }
 
 // FuzzVerifC45Decode: raw bytes into Codec.Decode of a node that holds a session
 // and a pending challenge: never a panic, never a message from bytes other than
 // the one valid packet, never a replaced session.
 func FuzzVerifC45Decode(f *testing.F) {
-	_, _, idB, _, valid, closefn := c45FuzzNode()
-	closefn()
+	_, _, idB, _, valid := c45FuzzNode()
 	f.Add(valid)
 	unmasked := bytes.Clone(valid)
 	var iv [16]byte
@@ -1054,8 +1108,7 @@ func FuzzVerifC45Decode(f *testing.F) {
 		if len(data) > maxPacketSize {
 			data = data[:maxPacketSize]
 		}
-		cb, idA, idB, s, valid, closefn := c45FuzzNode()
-		defer closefn()
+		cb, idA, idB, s, valid := c45FuzzNode()
 		// tried as is, and masked for B so that mutations of clear-text headers get past unmasking
 		for _, mask := range []bool{false, true} {
 			in := bytes.Clone(data)
